@@ -271,7 +271,7 @@ theorem duo_claimant {cfg : Cfg} {G : Nat} {n : Net} {x y : Nat} {stx sty : NetS
       exact this
     have hbkind : b = tokenBytes stx.s.p.address stx.s.p.address ∨
         ∃ g, g < 126 ∧ g ≠ sty.s.p.address ∧ b = statusRequestBytes g stx.s.p.address := by
-      rcases htxi with h0 | h0 | ⟨a, h1, h2, h3⟩
+      rcases htxi with h0 | h0 | ⟨a, h1, h2, h3, -⟩
       · exact absurd h0 htx
       · rw [hb] at h0; exact .inl (Option.some.inj h0)
       · rw [hb] at h3
@@ -374,7 +374,7 @@ theorem duo_claimant {cfg : Cfg} {G : Nat} {n : Net} {x y : Nat} {stx sty : NetS
         · simp only [List.mem_singleton] at ht; subst ht; exact Int.le_refl _
       · rw [hseen, hbus, e4, hsy]
         exact ⟨Int.le_refl _, Int.le_trans d.seens.2 htl⟩
-    · rcases htxi with h0 | h0 | ⟨a, h1, h2, h3⟩
+    · rcases htxi with h0 | h0 | ⟨a, h1, h2, h3, -⟩
       · exact .inl h0
       · exact .inr (.inl h0)
       · refine .inr (.inr ⟨a, h1, ?_, h3⟩)
